@@ -714,34 +714,55 @@ func selfContainingRefs(doc any) int {
 func parseLoose(raw string) []any {
 	var out []any
 	for _, part := range regexp.MustCompile(`(?m)^---$`).Split(raw, -1) {
-		var v any
-		if err := yaml.Unmarshal([]byte(part), &v); err == nil {
-			out = append(out, looseNorm(v))
+		// several JSON values may follow each other in one part (jsonl)
+		dec := yaml.NewDecoder(strings.NewReader(part))
+		for i := 0; i < 16; i++ {
+			var n yaml.Node
+			if err := dec.Decode(&n); err != nil {
+				break
+			}
+			out = append(out, nodeToAny(&n, 0))
+		}
+		// JSON streams without separators: also try each line on its own
+		for _, line := range strings.Split(part, "\n") {
+			var n yaml.Node
+			if strings.HasPrefix(strings.TrimSpace(line), "{") && yaml.Unmarshal([]byte(line), &n) == nil {
+				out = append(out, nodeToAny(&n, 0))
+			}
 		}
 	}
 	return out
 }
 
-func looseNorm(v any) any {
-	switch x := v.(type) {
-	case map[string]any:
-		for k, e := range x {
-			x[k] = looseNorm(e)
+// nodeToAny converts a YAML node tree to plain maps/lists/strings, tolerating
+// duplicate keys (last one wins, as in encoding/json).
+func nodeToAny(n *yaml.Node, depth int) any {
+	if n == nil || depth > 64 {
+		return nil
+	}
+	switch n.Kind {
+	case yaml.DocumentNode:
+		if len(n.Content) > 0 {
+			return nodeToAny(n.Content[0], depth+1)
 		}
-		return x
-	case map[any]any:
+		return nil
+	case yaml.MappingNode:
 		m := map[string]any{}
-		for k, e := range x {
-			m[fmt.Sprint(k)] = looseNorm(e)
+		for i := 0; i+1 < len(n.Content); i += 2 {
+			m[n.Content[i].Value] = nodeToAny(n.Content[i+1], depth+1)
 		}
 		return m
-	case []any:
-		for i, e := range x {
-			x[i] = looseNorm(e)
+	case yaml.SequenceNode:
+		l := []any{}
+		for _, c := range n.Content {
+			l = append(l, nodeToAny(c, depth+1))
 		}
-		return x
+		return l
+	case yaml.AliasNode:
+		return nodeToAny(n.Alias, depth+1)
+	default:
+		return n.Value
 	}
-	return v
 }
 
 // c08Known names the known-finding predicate a minimised case satisfies.
